@@ -47,7 +47,13 @@ OPS = ["membership", "range", "fit-default", "fit-tight"]
 
 def gen_case(rng, i):
     op = OPS[i % 4]
-    if op == "range":
+    if op == "fit-default" and (i // 4) % 3 == 2:
+        op = "fit-poisson"      # the Poisson model is unit-equivariant as well (its optimum does not depend on c)
+    if op == "fit-poisson":
+        m = int(rng.integers(2, 5))
+        s_ = gen.make_system(rng, m=m, n=int(rng.integers(1, m + 1)), ubkind="finite",
+                             kkind=["none", "scalar", "vector"][rng.integers(3)])
+    elif op == "range":
         m = int(rng.integers(2, 5))
         s_ = gen.make_system(rng, m=m, n=m + int(rng.integers(1, 4)), ubkind="finite")
     elif op == "membership":
@@ -111,6 +117,8 @@ def gen_case(rng, i):
     # upper bound, the others at the lower bound): many basic solutions of the enumeration then sit exactly on a bound
     k_sp = int(rng.integers(1, 3))
     s_["sparse_idx"] = [int(j) for j in rng.permutation(n)[:k_sp]] if rng.integers(3) == 0 else None
+    if op == "fit-poisson":
+        Bm = np.abs(Bm)
     s_.update({"B": Bm, "op": op, "s": sfac, "c": cfac, "internal": bool(rng.integers(3) == 0)})
     return s_
 
@@ -222,6 +230,31 @@ def chk_case(inp, c):
             c.margin("range equivariance / tol", d, rtol)
         judge(d <= rtol, "solution ranges scale by exactly 1/s", "range-not-equivariant", rel_dev=d)
         c.note("range_rel_dev", d)
+    elif op == "fit-poisson":
+        ok_a, f1 = c.try_call(e1.fit, B.copy(), model="poisson")
+        ok_b, f2 = c.try_call(e2.fit, B2.copy(), model="poisson")
+        if not (ok_a and ok_b):
+            if not ok_a and not ok_b:
+                c.unmet("the Poisson fit fails in both unit systems (C07's business)")
+            judge(False, "the Poisson fit returns in both unit systems or in neither", "poisson-raised-in-one-twin",
+                  err=str(f1 if not ok_a else f2)[:80])
+            return
+        X1, P1 = np.asarray(f1[0], float), np.asarray(f1[1], float)
+        X2, P2 = np.asarray(f2[0], float), np.asarray(f2[1], float)
+        scale_p = max(1.0, float(np.max(np.abs(P1))))
+        dP = float(np.max(np.abs(P2 - cc * P1))) / (cc * scale_p)
+        if asserted:
+            c.margin("poisson prediction equivariance / 5e-3", dP, 5e-3)
+        judge(dP <= 5e-3, "Poisson fit: predicted captures scale by c", "poisson-prediction-not-equivariant", rel_dev=dP)
+        if n <= m and np.linalg.matrix_rank(Mt) == n and finite:
+            # intensities follow from the predictions through the capture matrix: the allowance is the prediction
+            # allowance (both twins) divided by the smallest singular value
+            smin = float(np.linalg.svd(Mt, compute_uv=False)[-1])
+            dX = float(np.max(np.abs(X2 * s - X1)))
+            tolX = 2 * 5e-3 * scale_p / smin
+            judge(dX <= tolX, "Poisson fit: uniquely determined intensities scale by 1/s", "poisson-intensities-not-equivariant",
+                  dev=dX, allowance=tolX)
+        c.note("poisson_rel_dev", dP)
     else:
         tight = op == "fit-tight"
         kw = dict(solver=cp.CLARABEL, tol_gap_abs=1e-9, tol_gap_rel=1e-9, tol_feas=1e-9) if tight else {}
